@@ -115,13 +115,15 @@ func (server *SugarDB) handleCommand(ctx context.Context, message []byte, conn *
 		ctx = context.WithValue(ctx, "ConnectionName", server.connInfo.embedded.Name)
 		ctx = context.WithValue(ctx, "Protocol", server.connInfo.embedded.Protocol)
 		ctx = context.WithValue(ctx, "Database", server.connInfo.embedded.Database)
-	} else {
+	} else if !replay {
 		// The call is triggered by a TCP connection.
 		// Add TCP connection info to the context of the request.
 		ctx = context.WithValue(ctx, "ConnectionName", server.connInfo.tcpClients[conn].Name)
 		ctx = context.WithValue(ctx, "Protocol", server.connInfo.tcpClients[conn].Protocol)
 		ctx = context.WithValue(ctx, "Database", server.connInfo.tcpClients[conn].Database)
 	}
+	// When a logged command is replayed there is no connection: the restore has already put the
+	// protocol and the database of the log's last SELECT record in the context.
 	server.connInfo.mut.RUnlock()
 
 	cmd, err := internal.Decode(message)
@@ -185,9 +187,9 @@ func (server *SugarDB) handleCommand(ctx context.Context, message []byte, conn *
 
 		verifhook.Point("handlecommand.handler.done")
 		if internal.IsWriteCommand(command, subCommand) && !replay {
-			server.connInfo.mut.RLock()
-			server.aofEngine.LogCommand(server.connInfo.tcpClients[conn].Database, message)
-			server.connInfo.mut.RUnlock()
+			// Log the command under the database it was executed in (the caller may be the embedded API).
+			database, _ := ctx.Value("Database").(int)
+			server.aofEngine.LogCommand(database, message)
 		}
 
 		server.stateMutationInProgress.Store(false)
